@@ -1,10 +1,8 @@
 import warnings; warnings.simplefilter('ignore')
-import cirq, sympy
-from contracts import C19_circuits as cc
-q,r=cirq.LineQubit.range(2)
-for v in ('2.0','3.0'):
-  for sub in [cirq.X(r), (cirq.H**0.5)(r), (cirq.ISWAP**0.5)(q,r), [cirq.X(r), cirq.Z(q)]]:
-    try:
-        c=cirq.Circuit(cirq.H(q), cirq.measure(q,key='a'), cirq.If('a', sub))
-        print(v, str(sub)[:30], cc.compare_measured(c,[q,r],v))
-    except Exception as e: print(v, 'EXC', repr(e)[:200])
+import cirq, numpy as np
+q=cirq.LineQubit.range(3)
+nm=cirq.NoiseModel.from_noise_model_like(cirq.phase_damp(0.2))
+c=cirq.Circuit(cirq.X(q[1])**0.5, cirq.X(q[2])**0.5, cirq.measure(q[0],q[2],key='k'))
+d=cirq.dephase_measurements(c)
+print(d); print(cirq.Circuit(nm.noisy_moments(d, sorted(d.all_qubits()))))
+print(cirq.DensityMatrixSimulator(noise=nm)._can_be_in_run_prefix(d[1].operations[0]), [type(o.gate).__name__ for o in d.all_operations()])
